@@ -54,6 +54,11 @@
     corrScalarFirstRowTyped— `results_array_from_scalars` (subquery.rs:1196-1256) types the result column of a row-by-row correlated
                              scalar subquery from the FIRST outer row of the batch: a NULL (or Date32 / Int32 …) first result makes
                              the whole batch NULL.
+    scalarReductionDup     — `add_semi_join_reduction` (subquery_decorrelation.rs:726-912) joins the aggregate's input with the
+                             (filtered) outer source by an INNER join on the correlation key, assuming that key is unique there;
+                             with duplicate outer keys every inner row is repeated once per matching outer row, so COUNT / SUM of the
+                             decorrelated scalar subquery are multiplied (MIN / MAX unaffected).  Fires when the outer side carries
+                             a filter of its own.
     (A.20 (c), not a property of the rule and not modelled here: the filtered Semi/Anti probe of hash_join.rs looks up an
      empty generic hash table when the probe side has ≤ 1000 rows — C22.)
 
@@ -77,6 +82,7 @@ structure Dev where
   inDropsProjectedCorr : Bool := false
   scalarFirstBatchOnly : Bool := false
   corrScalarFirstRowTyped : Bool := false
+  scalarReductionDup : Bool := false
 deriving DecidableEq, Repr, Inhabited
 
 /-- the intended algorithm -/
@@ -86,7 +92,7 @@ def Dev.current : Dev :=
   { inSubquerySkipsNulls := true, notInPlainAnti := true, corrScalarInSelectNull := true,
     corrErrorsSwallowed := true, scalarCountBug := true, inSubqueryTypesLimited := true,
     nonEqFilterFlipped := true, inDropsNonEqCorr := true, inDropsProjectedCorr := true,
-    scalarFirstBatchOnly := true, corrScalarFirstRowTyped := true }
+    scalarFirstBatchOnly := true, corrScalarFirstRowTyped := true, scalarReductionDup := true }
 
 /-! ### IN / NOT IN, row by row -/
 
@@ -355,6 +361,13 @@ def scalarLeftJoin (dev : Dev) (fo : FloatOps) (f : AggFn) (distinct : Bool) (ok
       match g.find? (fun p => eqTrue fo (okey l) p.1) with
       | some p => (l, p.2)
       | none => (l, if dev.scalarCountBug then .null else emptyAgg fo f distinct))
+
+/-- `add_semi_join_reduction`: the aggregate's input as the rule rewrites it when the outer side `Rf` is filtered — an Inner
+    join with the outer keys: each inner row once per outer row with an equal key (the intended reduction is a Semi join:
+    each inner row at most once; dropping the partner-less inner rows changes nothing for the Left join above). -/
+def reducedInput (dev : Dev) (fo : FloatOps) (okey key : Row → Val) (Rf S : Table) : Table :=
+  if dev.scalarReductionDup then S.flatMap fun s => (Rf.filter fun l => eqTrue fo (okey l) (key s)).map fun _ => s
+  else S
 
 /-- the row-by-row reference: for each outer row the aggregate over its partner rows `S.filter (m l)` -/
 def scalarRowByRow (fo : FloatOps) (f : AggFn) (distinct : Bool) (m : Row → Row → Bool) (ev : Row → Val)
